@@ -2,7 +2,7 @@
 from harness import chk, includes, labels
 
 ID = "C04"
-MODULES = ["HeraProofs.Props.C04", "HeraProofs.Props.C04b"]
+MODULES = ["HeraProofs.Props.C04", "HeraProofs.Props.C04b", "HeraProofs.Props.C04c"]
 GENERATED_DEPS = ["Tables.lean", "Ops.lean", "Exec.lean"]
 EXPLANATION = ("Theorems: C04_convert_length over the regenerated convert methods (every operation expands to exactly the number of "
                "machine instructions that label placement counts for it, all classes, all operand tuples); over the checker model, for "
